@@ -275,7 +275,7 @@ func init() {
 			"IS, NOT, AND/OR, CASE with and without ELSE, built-in and user function calls, nested calls, subqueries, ASYNC / ONCE / SPIN / SPINASYNC " +
 			"calls, SETVAR/GETVAR, FUSE, CONSTANT) placed in one of 20 positions (select item aliased/unaliased, function argument, array element, " +
 			"CASE branch/else/condition, IN list, WHERE, subquery select list, grouped select list, HAVING, joined select list, CTE and derived-table " +
-			"select lists, ORDER BY key, DISTINCT item, UNION branch, star plus item, select item of a multi-dimensional FROM) or (1/4) one of the 33 wide constructs. Oracle on every " +
+			"select lists, ORDER BY key, DISTINCT item, UNION branch, star plus item, select item of a multi-dimensional FROM) or (1/4) one of the 40 wide constructs. Oracle on every " +
 			"successful result: reflective walk (only maps with string keys, slices, strings, Go numeric kinds, bools, nil; no type declared by " +
 			"the library, no pointer/func/struct, no key `<-`, no cycle, finite numbers), json.Marshal succeeds, and two re-executions on fresh equal " +
 			"inputs return the identical sequence (multiset when GROUP BY / joins / UNION leave the order open). Non-trivial: >=1 output row and a " +
